@@ -228,3 +228,265 @@ Proof.
   exists j, s'. split; [exact Hj|]. split; [exact Hs'|]. lia.
 Qed.
 End Space.
+
+(* ============================================================ no builtin is needed *)
+Definition bsem_none : N -> list rval -> option rval := fun _ _ => None.
+Lemma builtin_envs_unspecified ob b : builtin_envs ob bsem_none b.
+Proof. intros m v m' rs r H. discriminate. Qed.
+
+(* ============================================================ running the model (non-vacuity) *)
+From MW Require Model.Builtins.
+(* structural equality on the data the programs are made of *)
+Fixpoint cell_same (a b : cell) : bool :=
+  match a, b with
+  | CPair x y, CPair x' y' => cell_same x x' && cell_same y y'
+  | CNil, CNil => true
+  | CSym s, CSym t => text_eqb s t
+  | CBool x, CBool y => Bool.eqb x y
+  | _, _ => false
+  end.
+Lemma cell_same_eq : forall a b, cell_same a b = true -> a = b.
+Proof.
+  induction a as [x|x| |x|x IHx y IHy|x|x|x| | |x| |]; intros b H; destruct b; cbn [cell_same] in H; try discriminate.
+  - apply Bool.eqb_prop in H. congruence.
+  - reflexivity.
+  - apply andb_prop in H as [H1 H2]. f_equal; auto.
+  - apply text_eqb_eq in H. congruence.
+Qed.
+
+(* a session: the forms in sequence on the real machine, each must end with Done and must be
+   left alone by the macro expander (the premise of the theorems) *)
+Fixpoint run_forms (fs : list expr3) (s : vm) : option vm :=
+  match fs with
+  | [] => Some s
+  | e :: r =>
+      match transform_expr TRANSFORM_FUEL s (cell_of3 e) with
+      | Ok c => if cell_same c (cell_of3 e) then
+                  match eval Builtins.other_builtin 400 (cell_of3 e) s with
+                  | ROk (Done _) s' => run_forms r s'
+                  | _ => None
+                  end
+                else None
+      | _ => None
+      end
+  end.
+(* walk, cnt, mk, c = #f defined and c advanced n times, starting from the empty machine with the
+   builtin procedures loaded *)
+Definition chain_session (n : nat) : option vm :=
+  match Builtins.load_builtins (vm_empty 8192) with
+  | ROk _ s0 => run_forms ([walk_def; cnt_def; mk_def; c_def] ++ repeat c_step n) s0
+  | _ => None
+  end.
+(* the maximum of sp over the run of e from s, relative to sp s; the value; the final sp *)
+Definition measure (e : expr3) (s : vm) (fuel : nat) : option (N * cell * N) :=
+  match transform_expr TRANSFORM_FUEL s (cell_of3 e) with
+  | Ok c =>
+      if cell_same c (cell_of3 e) then
+        match prepare_eval (cell_of3 e) s, eval Builtins.other_builtin fuel (cell_of3 e) s with
+        | ROk _ m0, ROk (Done v) s' => Some (hw Builtins.other_builtin fuel m0 - sp s, v, sp s')
+        | _, _ => None
+        end
+      else None
+  | _ => None
+  end.
+Definition measures (n : nat) : option ((N * cell * N) * (N * cell * N)) :=
+  match chain_session n with
+  | Some s => match measure walk_call s 2000, measure cnt_top s 2000 with
+              | Some a, Some b => Some (a, b)
+              | _, _ => None
+              end
+  | None => None
+  end.
+
+(* ============================================================ the hypotheses hold along the session *)
+Section Session.
+Notation ob := Builtins.other_builtin.
+Let Hb : forall b, builtin_ok ob bsem_none b := builtin_ok_unspecified ob.
+Let He : forall b, builtin_envs ob bsem_none b := builtin_envs_unspecified ob.
+
+(* one form of a session whose reference value is a datum: the state after `Done` satisfies the
+   hypotheses of the next form *)
+Lemma session_step3 e rho b rho' s fuel v s1 :
+  wf3 e [] -> ref_eval3 bsem_none [] [] rho e (R3Base b) rho' -> minv s -> genv_rel3 rho s ->
+  transform_expr TRANSFORM_FUEL s (cell_of3 e) = Ok (cell_of3 e) ->
+  eval ob fuel (cell_of3 e) s = ROk (Done v) s1 -> minv s1 /\ genv_rel3 rho' s1.
+Proof.
+  intros Hwf HR MI G Htr Hev.
+  destruct (eval_fragment3_done ob bsem_none Hb He e rho b rho' s Hwf HR MI G Htr)
+    as (n & m & V & G' & MI' & X & _ & _ & _ & _ & Hh & Hd).
+  assert (E1 : eval ob (Nat.max fuel n) (cell_of3 e) s = ROk (Done v) s1).
+  { eapply eval_fuel_mono_eq; [|exact Hev|discriminate]. lia. }
+  pose proof (Hh (Nat.max fuel n) ltac:(lia)) as E2.
+  assert (Hn : halt_result m <> RNoFuel) by (rewrite <- E2, E1; discriminate).
+  pose proof (Hd (or_introl Hn) (Nat.max fuel n) ltac:(lia)) as E3.
+  rewrite E1 in E3. injection E3 as _ ->. apply done_state_ok; assumption.
+Qed.
+
+Lemma run_forms_cons e r s : run_forms (e :: r) s =
+  match transform_expr TRANSFORM_FUEL s (cell_of3 e) with
+  | Ok c => if cell_same c (cell_of3 e) then
+              match eval ob 400 (cell_of3 e) s with
+              | ROk (Done _) s' => run_forms r s'
+              | _ => None
+              end
+            else None
+  | _ => None
+  end.
+Proof. reflexivity. Qed.
+
+Lemma run_forms_step e fs s s' rho b rho' :
+  wf3 e [] -> ref_eval3 bsem_none [] [] rho e (R3Base b) rho' -> minv s -> genv_rel3 rho s ->
+  run_forms (e :: fs) s = Some s' -> exists s1, minv s1 /\ genv_rel3 rho' s1 /\ run_forms fs s1 = Some s'.
+Proof.
+  intros Hwf HR MI G H. rewrite run_forms_cons in H.
+  destruct (transform_expr TRANSFORM_FUEL s (cell_of3 e)) as [c| | |] eqn:Et; try discriminate.
+  destruct (cell_same c (cell_of3 e)) eqn:Ec; [|discriminate]. apply cell_same_eq in Ec. subst c.
+  destruct (eval ob 400 (cell_of3 e) s) as [[v| |? ? ?] s1|? ? ?| |] eqn:Ev; try discriminate.
+  exists s1. destruct (session_step3 e rho b rho' s 400%nat v s1 Hwf HR MI G Et Ev) as [M1 G1]. auto.
+Qed.
+End Session.
+
+(* ============================================================ the chain session establishes the hypotheses *)
+From MW Require Proofs.BootGenv.
+Definition mk_clo : rval3 := R3Clo [S_ "t"] [] (YLam [] [S_ "t"] (YVar (S_ "t"))) [].
+Definition chain_env (rho : env3) (n : nat) : Prop :=
+  rho (S_ "walk") = Some walk_clo /\ rho (S_ "cnt") = Some cnt_clo /\ rho (S_ "mk") = Some mk_clo /\
+  rho (S_ "c") = Some (chain n).
+Definition v_void : rval3 := R3Base (RDatum CVoid).
+
+Lemma wf3_call_l : wf3 call_l [S_ "l"].
+Proof. apply wf3_app. split; [reflexivity|]. split; [reflexivity|constructor]. Qed.
+Lemma wf3_walk_body : wf3 walk_body [S_ "l"].
+Proof.
+  cbn [wf3 walk_body]. split; [reflexivity|]. split; [|cbn; tauto].
+  split; [reflexivity|]. split; [reflexivity|]. split; [exact wf3_call_l|exact I].
+Qed.
+Lemma wf3_walk_def : wf3 walk_def [].
+Proof.
+  cbn [wf3 walk_def]. split; [reflexivity|]. split; [reflexivity|].
+  split; [intros x [<-|[]]; reflexivity|]. split; [reflexivity|]. split; [vm_compute; reflexivity|]. split.
+  { intros x Hx. right; left. reflexivity. }
+  exact wf3_walk_body.
+Qed.
+Lemma wf3_cnt_body : wf3 cnt_body [S_ "l"].
+Proof.
+  cbn [wf3 cnt_body]. split; [reflexivity|]. split; [|cbn; tauto].
+  split; [reflexivity|]. split.
+  { split; [intros x [<-|[]]; reflexivity|]. split; [reflexivity|]. split; [vm_compute; reflexivity|].
+    split; [intros x [<-|[]]; left; left; reflexivity|reflexivity]. }
+  split; [|exact I]. split; [reflexivity|]. split; [reflexivity|]. split; [exact wf3_call_l|exact I].
+Qed.
+Lemma wf3_cnt_def : wf3 cnt_def [].
+Proof.
+  cbn [wf3 cnt_def]. split; [reflexivity|]. split; [reflexivity|].
+  split; [intros x [<-|[]]; reflexivity|]. split; [reflexivity|]. split; [vm_compute; reflexivity|]. split.
+  { intros x Hx. right; left. reflexivity. }
+  exact wf3_cnt_body.
+Qed.
+Lemma wf3_mk_def : wf3 mk_def [].
+Proof.
+  cbn [wf3 mk_def]. split; [reflexivity|]. split; [reflexivity|].
+  split; [intros x [<-|[]]; reflexivity|]. split; [reflexivity|]. split; [vm_compute; reflexivity|]. split.
+  { intros x [<-|[]]. left; left; reflexivity. }
+  split; [intros x []|]. split; [reflexivity|]. split; [vm_compute; reflexivity|].
+  split; [intros x [<-|[]]; right; right; left; reflexivity|reflexivity].
+Qed.
+Lemma wf3_c_def : wf3 c_def [].
+Proof. cbn [wf3 c_def]. split; [reflexivity|]. split; [reflexivity|]. split; [reflexivity|cbn; tauto]. Qed.
+Lemma wf3_c_step : wf3 c_step [].
+Proof.
+  cbn [wf3 c_step]. split; [reflexivity|]. split; [reflexivity|].
+  split; [reflexivity|]. split; [reflexivity|]. split; [reflexivity|exact I].
+Qed.
+
+Section SessionOk.
+Notation ob := Builtins.other_builtin.
+Notation ref_eval3 := (Closures3.ref_eval3 bsem_none).
+
+Lemma def_lam_ref rho x ps fs body : capnames [] fs = [] ->
+  ref_eval3 [] [] rho (YDefine x (YLam ps fs body)) v_void (upd3 rho x (R3Clo ps [] body [])).
+Proof.
+  intros Hc. apply R3_define. pose proof (R3_lam bsem_none [] [] rho ps fs body []) as H.
+  rewrite Hc in H. apply H. constructor.
+Qed.
+Lemma c_def_ref rho : ref_eval3 [] [] rho c_def v_void (upd3 rho (S_ "c") (chain 0)).
+Proof. apply R3_define. apply R3_const. Qed.
+Lemma c_step_ref rho k : chain_env rho k ->
+  ref_eval3 [] [] rho c_step v_void (upd3 rho (S_ "c") (chain (S k))).
+Proof.
+  intros (_ & _ & Hm & Hc). eapply R3_set; [|exact Hc].
+  eapply (R3_app_closure bsem_none _ _ _ _ _ [chain k] _ [S_ "t"] [] (YLam [] [S_ "t"] (YVar (S_ "t"))) []).
+  - eapply R3_cons; [apply R3_global; [reflexivity|exact Hc|apply chain_not_undef]|apply R3_nil].
+  - apply R3_global; [reflexivity|exact Hm|discriminate].
+  - reflexivity.
+  - apply (R3_lam bsem_none [S_ "t"] [chain k] _ [] [S_ "t"] (YVar (S_ "t")) [chain k]).
+    constructor; [|constructor]. exists 0. split; reflexivity.
+Qed.
+
+Lemma chain_steps n : forall k s s' rho, minv s -> genv_rel3 rho s -> chain_env rho k ->
+  run_forms (repeat c_step n) s = Some s' ->
+  exists rho', minv s' /\ genv_rel3 rho' s' /\ chain_env rho' (n + k).
+Proof.
+  induction n as [|n IH]; intros k s s' rho MI G E H.
+  - cbn [repeat run_forms] in H. injection H as <-. exists rho. auto.
+  - cbn [repeat] in H.
+    destruct (run_forms_step c_step _ s s' rho _ _ wf3_c_step (c_step_ref rho k E) MI G H) as (s1 & M1 & G1 & H1).
+    destruct (IH (S k) s1 s' _ M1 G1) as (rho' & M' & G' & E'); [|exact H1|].
+    + destruct E as (E1 & E2 & E3 & E4). repeat split; [exact E1|exact E2|exact E3].
+    + exists rho'. replace (S n + k)%nat with (n + S k)%nat by lia. auto.
+Qed.
+
+Lemma chain_session_unfold n : chain_session n =
+  match Builtins.load_builtins (vm_empty 8192) with
+  | ROk _ s0 => run_forms (walk_def :: cnt_def :: mk_def :: c_def :: repeat c_step n) s0
+  | _ => None
+  end.
+Proof. reflexivity. Qed.
+
+(* the state after the session: minv, and the globals walk, cnt, mk, c = chain n are represented *)
+Theorem chain_session_ok n s : chain_session n = Some s ->
+  minv s /\ exists rho, genv_rel3 rho s /\ chain_env rho n.
+Proof.
+  rewrite chain_session_unfold.
+  destruct (BootGenv.load_builtins_ok (vm_empty 8192) (minv_vm_empty 8192 eq_refl)) as (s0 & E0 & MI0 & _).
+  rewrite E0. intros H.
+  destruct (run_forms_step walk_def _ s0 s rho3_empty _ _ wf3_walk_def (def_lam_ref _ (S_ "walk") [S_ "l"] [S_ "walk"] walk_body eq_refl) MI0
+              (genv_rel3_empty s0) H) as (s1 & M1 & G1 & H1).
+  destruct (run_forms_step cnt_def _ s1 s _ _ _ wf3_cnt_def (def_lam_ref _ (S_ "cnt") [S_ "l"] [S_ "cnt"] cnt_body eq_refl) M1 G1 H1) as (s2 & M2 & G2 & H2).
+  destruct (run_forms_step mk_def _ s2 s _ _ _ wf3_mk_def (def_lam_ref _ (S_ "mk") [S_ "t"] [] (YLam [] [S_ "t"] (YVar (S_ "t"))) eq_refl) M2 G2 H2) as (s3 & M3 & G3 & H3).
+  destruct (run_forms_step c_def _ s3 s _ _ _ wf3_c_def (c_def_ref _) M3 G3 H3) as (s4 & M4 & G4 & H4).
+  destruct (chain_steps n 0 s4 s _ M4 G4 ltac:(repeat split) H4) as (rho' & M' & G' & E').
+  rewrite Nat.add_0_r in E'. split; [exact M'|]. exists rho'. auto.
+Qed.
+
+(* loop_space on the real machine: after the session that binds c to a chain of n thunks,
+   (walk c) runs with the stack pointer at most 9 slots above the start — for every n *)
+Theorem walk_session_space n s : chain_session n = Some s ->
+  transform_expr TRANSFORM_FUEL s (cell_of3 walk_call) = Ok (cell_of3 walk_call) ->
+  exists k m m0 m6,
+    prepare_eval (cell_of3 walk_call) s = ROk tt m0 /\ sp m0 = sp s /\ RunProofs.steps ob k m0 = Some m6 /\
+    Vm.run_one ob m6 = ROk true m /\
+    (forall fuel, (S k <= fuel)%nat -> eval ob fuel (cell_of3 walk_call) s = halt_result m) /\
+    vrep3 m (acc m) v_done /\ minv m /\ sp m = sp s /\
+    (forall j s', (j <= k)%nat -> RunProofs.steps ob j m0 = Some s' -> sp s' <= sp s + 9).
+Proof.
+  intros H Htr. destruct (chain_session_ok n s H) as (MI & rho & G & E1 & _ & _ & E4).
+  destruct (walk_loop_space ob bsem_none (builtin_ok_unspecified ob) (builtin_envs_unspecified ob) n rho s E1 E4 MI G Htr)
+    as (k & m & m0 & m6 & P1 & P2 & P3 & P4 & P5 & P6 & _ & P8 & P9 & P10).
+  exists k, m, m0, m6. auto 10.
+Qed.
+
+(* ... while the twin reaches at least 9 + 5 n slots *)
+Theorem cnt_session_grows n s : chain_session n = Some s ->
+  transform_expr TRANSFORM_FUEL s (cell_of3 cnt_top) = Ok (cell_of3 cnt_top) ->
+  exists k m m0 m6,
+    prepare_eval (cell_of3 cnt_top) s = ROk tt m0 /\ sp m0 = sp s /\ RunProofs.steps ob k m0 = Some m6 /\
+    Vm.run_one ob m6 = ROk true m /\
+    (forall fuel, (S k <= fuel)%nat -> eval ob fuel (cell_of3 cnt_top) s = halt_result m) /\
+    vrep3 m (acc m) (R3Base (RDatum (CSym (S_ "yes")))) /\ sp m = sp s /\
+    (exists j s', (j <= k)%nat /\ RunProofs.steps ob j m0 = Some s' /\ sp s + 9 + 5 * N.of_nat n <= sp s').
+Proof.
+  intros H Htr. destruct (chain_session_ok n s H) as (MI & rho & G & _ & E2 & _ & E4).
+  exact (cnt_stack_grows ob bsem_none (builtin_ok_unspecified ob) (builtin_envs_unspecified ob) n rho s E2 E4 MI G Htr).
+Qed.
+End SessionOk.
